@@ -49,6 +49,12 @@ def bdFirstFix (spec : DeclSpec) (decls : List DeclInfo) (d0 : DeclInfo) : P (De
     let tail ← attrOrCrash (innerTypeDecl fuel d0.decl) "decls_0_tail.type"
     let dn ← attrOrCrash (tail.getAttr "declname") "declname"
     if dn.isNone then
+      let lastT ← match spec.type.getLast? with
+        | none => crash .index "spec['type'][-1]"
+        | some t => pure t
+      if !lastT.isCls .IdentifierType then
+        parseError "Invalid declaration" (locOfCoord (← valCoord d0.decl "decls[0]['decl'].coord"))
+      else
       let names ← lastTypeNames spec
       let nm ← match names with
         | n :: _ => pure n
@@ -267,8 +273,8 @@ def pSqlLoop (self : Self) (spec : Option DeclSpec) (sawType sawAlign : Bool) (f
 def pSpecifierQualifierList (self : Self) : P DeclSpec := do
   match ← self (.sqlLoop none false false none) with
   | (none, _, _, _) => parseError "Invalid specifier list" (← lexFileLoc)
-  | (some spec, sawType, sawAlign, first) =>
-    if !sawType && !sawAlign then parseError "Missing type in declaration" (locOfCoord first)
+  | (some spec, sawType, _, first) =>
+    if !sawType then parseError "Missing type in declaration" (locOfCoord first)
     else pure spec
 
 /-- `_parse_type_qualifier_list` -/
